@@ -92,20 +92,30 @@ def run_shard(shard):
                     if not mine():
                         continue
                     n = int(r.integers(2, 13))
-                    x = jnp.asarray(r.normal(size=(n, 3)) * 1.5)
-                    c = jnp.asarray(r.normal(size=(n, 2))) if cond else None
-                    it = {"model": nm, "variant": vn, "cond": cond, "loss": "ml", "rep": rep, "origin": "generated"}
                     p, s = partition_trainable(m)
-                    rec.evals += 1
-                    try:
-                        got = float(MaximumLikelihoodLoss()(p, s, x, c))
-                        ref = -float(np.mean(f64(m.log_prob(x, c))))
-                    except Exception as e:  # noqa: BLE001
-                        v(f"exception.{type(e).__name__}", f"MaximumLikelihoodLoss on {nm}/{vn} raised {type(e).__name__}: {str(e)[:200]}", it)
-                        continue
-                    rec.count("ml_loss_comparisons")
-                    if not abs(got - ref) <= 1e-10 * (1 + abs(ref)):
-                        v("ml.value", f"MaximumLikelihoodLoss({nm}/{vn}, batch {n}) = {got!r} but -mean(log_prob) = {ref!r}", it)
+                    ml = MaximumLikelihoodLoss()  # one loss object over all batch layouts
+                    # batch layouts: the ordinary (n, dim) one, several leading batch axes, a batch that only arises by broadcasting
+                    # against the conditioning variables, a single row
+                    layouts = [("rows", (n, 3), (n, 2)), ("two batch axes", (3, n, 3), (3, n, 2)), ("single row", (1, 3), (1, 2))]
+                    if cond:
+                        layouts += [("x broadcast against conditions", (3,), (n, 2)), ("outer product with conditions", (n, 3), (4, 1, 2))]
+                    for lay, xs_, cs_ in layouts:
+                        x = jnp.asarray(r.normal(size=xs_) * 1.5)
+                        c = jnp.asarray(r.normal(size=cs_)) if cond else None
+                        it = {"model": nm, "variant": vn, "cond": cond, "loss": "ml", "layout": lay, "rep": rep, "origin": "generated"}
+                        rec.evals += 1
+                        try:
+                            got = float(ml(p, s, x, c))
+                            lps = f64(m.log_prob(x, c))
+                            ref = -float(np.mean(lps))
+                        except Exception as e:  # noqa: BLE001
+                            v(f"exception.{type(e).__name__}", f"MaximumLikelihoodLoss on {nm}/{vn} ({lay}) raised {type(e).__name__}: {str(e)[:200]}", it)
+                            continue
+                        rec.count("ml_loss_comparisons")
+                        rec.count(f"ml_layout[{lay}]")
+                        if not abs(got - ref) <= 1e-10 * (1 + abs(ref)):
+                            v("ml.value", f"MaximumLikelihoodLoss({nm}/{vn}, {lay}: x {xs_}, condition {cs_ if cond else None}) = {got!r} but -mean(log_prob) over the "
+                                          f"{lps.shape} batch = {ref!r}", it)
                     if vn != "plain":
                         rec.nontrivial.add(chash("ml", nm, vn, cond, rep, shard["shard"]))
         # ---------------------------------------------------------- ELBO / stick the landing -
@@ -170,62 +180,64 @@ def run_shard(shard):
             def _sample(self, key, condition=None):
                 return jnp.zeros(self.shape)
 
+        def check_contrastive(loss_of, n, nc, it):
+            """one evaluation of a contrastive loss object on the tag distribution, checked against the recorded log_prob events"""
+            k3 = jr.PRNGKey(int(r.integers(0, 2**31 - 1)))
+            xt = np.arange(n, dtype=float) + 1.0
+            x = jnp.asarray(np.stack([xt, 0.3 * xt - 1.0], 1))
+            ct = 100.0 + np.arange(n, dtype=float)
+            c = jnp.asarray(ct[:, None])
+            d = Tag(w=jnp.asarray([0.7, 1.3]))
+            p, s = partition_trainable(d)
+            del log[:]
+            rec.evals += 1
+            try:
+                got = float(loss_of(nc)(p, s, x, c, k3))
+                jax.effects_barrier()
+            except Exception as e:  # noqa: BLE001
+                v(f"exception.{type(e).__name__}", f"ContrastiveLoss(batch {n}, n_contrastive {nc}) raised {type(e).__name__}: {str(e)[:200]}", it)
+                return None
+            rec.count("contrastive_evaluations")
+            rec.count("contrastive_logprob_events", len(log))
+            by_row = {}
+            for xtag, ctag in log:
+                by_row.setdefault(ctag, []).append(xtag)
+            if set(by_row) != set(ct.tolist()):
+                v("contrastive.rows", f"log_prob was evaluated for condition rows {sorted(by_row)}, expected every row {ct.tolist()}", it)
+                return None
+            lp_np = lambda xi, ci: -0.5 * np.sum((xi * np.array([0.7, 1.3]) - ci * 0.01) ** 2)
+            prior_np = lambda xi: float(np.sum(-0.5 * (xi / 4.0) ** 2 - np.log(4.0) - 0.5 * np.log(2 * np.pi)))
+            xrow = {float(t): np.asarray(x)[i] for i, t in enumerate(xt)}
+            losses = []
+            for i in range(n):
+                seen = by_row[float(ct[i])]
+                own = float(xt[i])
+                others = [t for t in seen if t != own]
+                if seen.count(own) != 1:
+                    v("contrastive.includes_self", f"row {i}: its own x appears {seen.count(own)} times among the evaluated points {seen} (batch {n}, n_contrastive {nc})", it)
+                    return None
+                if len(others) != nc or len(set(others)) != nc or not set(others) <= set(xt.tolist()):
+                    v("contrastive.set", f"row {i}: contrastive set {sorted(others)} is not {nc} distinct other rows (batch {n})", it, {"seen": seen})
+                    return None
+                pos = lp_np(xrow[own], ct[i]) - prior_np(xrow[own])
+                con = [lp_np(xrow[t], ct[i]) - prior_np(xrow[t]) for t in others]
+                losses.append(-(pos - logsumexp(con + [pos])))
+            ref = float(np.mean(losses))
+            if not abs(got - ref) <= 1e-10 * (1 + abs(ref)):
+                v("contrastive.value", f"ContrastiveLoss = {got!r} but the softmax cross-entropy over the observed sets = {ref!r} (batch {n}, n_contrastive {nc})", it)
+            if got < -1e-12:
+                v("contrastive.negative", f"ContrastiveLoss = {got!r} < 0 (batch {n}, n_contrastive {nc})", it)
+            return k3
+
+        prior = D.Normal(jnp.zeros(2), jnp.full((2,), 4.0))
         for n in ([2, 3, 5, 8, 12, 16, 32] if rep % 2 == 0 else [4, 6, 7, 9, 17, 24]) if stride == 1 else [[2, 3], [5], [8, 16], [12], [4, 24], [6], [7, 17], [9, 32]][shard["shard"] % 8]:
             for nc in range(1, n):
                 if n > 6 and nc not in (1, 2, 3, n // 8, n // 2, n - 2, n - 1):
                     continue
                 it = {"loss": "contrastive", "batch": n, "n_contrastive": nc, "rep": rep, "origin": "generated"}
-                k3 = jr.PRNGKey(int(r.integers(0, 2**31 - 1)))
-                xt = np.arange(n, dtype=float) + 1.0
-                x = jnp.asarray(np.stack([xt, 0.3 * xt - 1.0], 1))
-                ct = 100.0 + np.arange(n, dtype=float)
-                c = jnp.asarray(ct[:, None])
-                d = Tag(w=jnp.asarray([0.7, 1.3]))
-                prior = D.Normal(jnp.zeros(2), jnp.full((2,), 4.0))
-                p, s = partition_trainable(d)
-                del log[:]
-                rec.evals += 1
-                try:
-                    got = float(ContrastiveLoss(prior, nc)(p, s, x, c, k3))
-                    jax.effects_barrier()
-                except Exception as e:  # noqa: BLE001
-                    v(f"exception.{type(e).__name__}", f"ContrastiveLoss(batch {n}, n_contrastive {nc}) raised {type(e).__name__}: {str(e)[:200]}", it)
+                k3 = check_contrastive(lambda nc_: ContrastiveLoss(prior, nc_), n, nc, it)
+                if k3 is None:
                     continue
-                rec.count("contrastive_evaluations")
-                rec.count("contrastive_logprob_events", len(log))
-                by_row = {}
-                for xtag, ctag in log:
-                    by_row.setdefault(ctag, []).append(xtag)
-                if set(by_row) != set(ct.tolist()):
-                    v("contrastive.rows", f"log_prob was evaluated for condition rows {sorted(by_row)}, expected every row {ct.tolist()}", it)
-                    continue
-                lp_np = lambda xi, ci: -0.5 * np.sum((xi * np.array([0.7, 1.3]) - ci * 0.01) ** 2)
-                prior_np = lambda xi: float(np.sum(-0.5 * (xi / 4.0) ** 2 - np.log(4.0) - 0.5 * np.log(2 * np.pi)))
-                xrow = {float(t): np.asarray(x)[i] for i, t in enumerate(xt)}
-                losses = []
-                bad = False
-                for i in range(n):
-                    seen = by_row[float(ct[i])]
-                    own = float(xt[i])
-                    others = [t for t in seen if t != own]
-                    if seen.count(own) != 1:
-                        v("contrastive.includes_self", f"row {i}: its own x appears {seen.count(own)} times among the evaluated points {seen} (batch {n}, n_contrastive {nc})", it)
-                        bad = True
-                        break
-                    if len(others) != nc or len(set(others)) != nc:
-                        v("contrastive.set", f"row {i}: contrastive set {sorted(others)} is not {nc} distinct other rows (batch {n})", it, {"seen": seen})
-                        bad = True
-                        break
-                    pos = lp_np(xrow[own], ct[i]) - prior_np(xrow[own])
-                    con = [lp_np(xrow[t], ct[i]) - prior_np(xrow[t]) for t in others]
-                    losses.append(-(pos - logsumexp(con + [pos])))
-                if bad:
-                    continue
-                ref = float(np.mean(losses))
-                if not abs(got - ref) <= 1e-10 * (1 + abs(ref)):
-                    v("contrastive.value", f"ContrastiveLoss = {got!r} but the softmax cross-entropy over the observed sets = {ref!r} (batch {n}, n_contrastive {nc})", it)
-                if got < -1e-12:
-                    v("contrastive.negative", f"ContrastiveLoss = {got!r} < 0 (batch {n}, n_contrastive {nc})", it)
                 if nc >= 1 and n >= 3:
                     rec.nontrivial.add(chash("con", n, nc, rep, shard["shard"]))
                 # the index helper itself
@@ -234,6 +246,18 @@ def run_shard(shard):
                 okidx = idx.shape == (n, nc) and all(len(set(row.tolist())) == nc and i not in row and row.min() >= 0 and row.max() < n for i, row in enumerate(idx))
                 if not okidx:
                     v("contrastive.idxs", f"_get_contrastive_idxs(batch {n}, n {nc}) = {idx.tolist()} is not {nc} distinct other rows per row", it)
+        # histories: ONE loss object evaluated on a sequence of batches of different sizes (what fit_to_data does: training
+        # batches, then a validation batch of another size) - every evaluation must satisfy the same definition
+        for nc in ([1, 3] if stride != 1 else [1, 2, 3, 6]):
+            obj = ContrastiveLoss(prior, nc)
+            sizes = [int(t) for t in r.permutation([16, 5, 8, 12, 4, 9, 7] if stride == 1 else [16, 5, 8, 4])]
+            sizes = [t for t in sizes if t > nc] + [nc + 1]
+            for step, n in enumerate(sizes):
+                it = {"loss": "contrastive-history", "batch": n, "n_contrastive": nc, "history": sizes[:step], "rep": rep, "origin": "generated"}
+                if check_contrastive(lambda nc_: obj, n, nc, it) is not None:
+                    rec.count("contrastive_history_evaluations")
+                    if step:
+                        rec.nontrivial.add(chash("conhist", tuple(sizes[: step + 1]), nc, rep, shard["shard"]))
         # a real conditional flow: value against NumPy recomputation from the public log_prob and the helper's index sets
         for n, nc in [(5, 2), (8, 5)][: (2 if stride == 1 else (1 if shard["shard"] % 4 == 0 else 0))]:
             k3 = jr.PRNGKey(int(r.integers(0, 2**31 - 1)))
@@ -256,5 +280,5 @@ def run_shard(shard):
     out = rec.result()
     if not shard.get("replay"):
         out["required"] = {k: rec.counters.get(k, 0) for k in ("ml_loss_comparisons", "elbo_value_comparisons", "stl_gradient_identity_leaves",
-                                                               "contrastive_logprob_events", "contrastive_index_checks")}
+                                                               "contrastive_logprob_events", "contrastive_index_checks", "contrastive_history_evaluations")}
     return out
